@@ -9,7 +9,11 @@ THEOREMS = ["C04_refines", "C04_wf", "C04_total_probability", "C04_base_rate", "
 EXTRA_MODULES = [("SLV.Props.OracleSpec", ("OS_pyhx", "OS_bmin", "OS_apexU", "OS_deduce", "OS_totalProb", "OS_mbr", "OS_allVac", "OS_projQ"))]
 RULE = ("deduce / deduce_with / deduce2 on well-formed antecedents (zero base rates, vacuous, dogmatic, absolute) x conditional "
         "tables (vacuous/dogmatic/mixed, zero entries in the fallback base rate), |X| 2..4, 2-D antecedents 2x2,2x3,3x2,3x3, |Y| 2..3; "
-        "dyadic grids; families A/M/D/N, OpinionRef/&Opinion, owned/borrowed tables; f32+f64. non-trivial = value returned")
+        "dyadic grids; families A/M/D/N, OpinionRef/&Opinion, owned/borrowed tables; f32+f64. Variant token `shared`: the table "
+        "holds its conditionals BY REFERENCE ([&Simplex;N], MArr1/MArrD1/MArr2/MArrD2 of &Simplex) and entries with equal values are "
+        "ONE object; stream with |X| 3..4 (and 2x2, 2x3, 3x2) where the first conditional (or another one) is repeated at later "
+        "positions next to at least one different entry, antecedents absolute on each x / vacuous / dogmatic / interior; the harness "
+        "runs the by-value table next to it and the oracle additionally requires bit-equal answers. non-trivial = value returned")
 EXHAUSTIVE = {}
 nontrivial = default_nontrivial
 LEVEL_TEXT = ("Theorems for every |X|,|Y| and all rational well-formed inputs (zero base rates allowed): the model's deduce_of equals an "
@@ -19,10 +23,55 @@ LEVEL_TEXT = ("Theorems for every |X|,|Y| and all rational well-formed inputs (z
               "absolute case are evaluated on the implementation's outputs.")
 
 
+def shared_case(rng, fmt):
+    """by-reference table with shared (aliased) entries: some conditional occurs at several positions, at least one entry differs"""
+    den = rng.choice([4, 8, 16])
+    m = rng.choice([2, 3])
+    two_d = rng.random() < 0.25
+    if two_d:
+        n0, n1 = rng.choice([(2, 2), (2, 3), (3, 2)])
+        n = n0 * n1
+    else:
+        n = rng.choice([3, 3, 4])
+    # distinct conditionals, then a pattern of positions with repeats
+    for _ in range(50):
+        k = rng.randint(2, n - 1)
+        rows = [G.rand_cond(rng, 1, m, den, [rng.choice(["int", "int", "dog", "any", "vac"])]) for _ in range(k)]
+        if len({tuple(r) for r in rows}) == k and not all(r[m] == 1 for r in rows):
+            break
+    z = rng.random()
+    while True:
+        if z < 0.6:
+            # the FIRST conditional again at a later position
+            pat = [0] + [rng.randrange(k) for _ in range(n - 1)]
+            if 0 not in pat[1:]:
+                pat[rng.randrange(1, n)] = 0
+        else:
+            pat = [rng.randrange(k) for _ in range(n)]
+        if len(set(pat)) >= 2 and any(pat.count(q) >= 2 for q in pat):
+            break
+    conds = sum((rows[p] for p in pat), [])
+    ax = G.rand_dist(rng, n, den, positive=rng.random() < 0.7)
+    kind = rng.choice(["abs", "abs", "vac", "dog", "int", "any"])
+    b, u = G.rand_simplex(rng, n, den, "dog" if kind == "abs" else kind)
+    if kind == "abs":
+        b = [G.Fr(0)] * n; b[rng.randrange(n)] = G.Fr(1)
+    ay = G.rand_dist(rng, m, den)
+    st = rng.choice(["o", "r"])
+    if two_d:
+        return G.line("deduce2", fmt, rng.choice(["M", "D", "N"]) + "." + st + ".shared", [n0, n1, m], b + [u] + ax + conds + ay)
+    fam = rng.choice(G.FAMS_1D)
+    if rng.random() < 0.6:
+        return G.line("deduce_with", fmt, fam + "." + st + ".shared", [n, m], b + [u] + ax + conds + ay)
+    return G.line("deduce", fmt, fam + "." + st + ".shared", [n, m], b + [u] + ax + conds)
+
+
 def cases(rng, tier):
     out = []
     for fmt in ("f64", "f32"):
         N = 1200 if tier == "quick" else 40000
+        for _ in range(N // 3):
+            out.append(shared_case(rng, fmt))
         for _ in range(N):
             den = rng.choice([4, 8, 16])
             r = rng.random()
